@@ -76,6 +76,20 @@ func (x *fx) resolveName(name string, at *ssa.BasicBlock, override map[*ssa.Phi]
 			}
 		}
 	}
+	// an address-taken local (captured by a closure, or &x): its current value lives in its cell
+	for _, blk := range x.fn.Blocks {
+		if blk != at && !blk.Dominates(at) {
+			continue
+		}
+		for _, in := range blk.Instrs {
+			if al, ok := in.(*ssa.Alloc); ok && al.Comment == name {
+				if _, done := x.vals[al]; done {
+					lv := x.lvalOf(al)
+					return TV{x.load(st, lv), lv.t}, true
+				}
+			}
+		}
+	}
 	var best *ssa.DebugRef
 	for _, d := range x.dbgRefs {
 		id, ok := d.Expr.(*ast.Ident)
